@@ -188,8 +188,65 @@ def mbtiles_meta_rule(ck, P):
              "metadata rows are not written as (key, its value): %s%s" % (bad[:2], "" if need <= keys else "; missing keys %s" % sorted(need - keys)), ir.loc(wp))
 
 
+def meta_read_rule(ck, P):
+    """R-META-READ: the tar and directory readers take their TileJSON from the stored metadata member: each arm of the name table
+    (meta.json / tiles.json / metadata.json, plain, .gz, .br) merges TileJSON::try_from_blob_or_default(<the member's bytes, decoded
+    with the arm's compression>) into the reader's document; the tar reader's helper really reads the member."""
+    ENC = {"": None, ".gz": "Gzip", ".br": "Brotli"}
+    for suffix in ("tar::reader::TarTilesReader::open_path", "directory::reader::DirectoryTilesReader::open_path"):
+        bs = [b for b in P.bodies if b["q"].endswith(suffix)]
+        if not ck.anchor("R-META-READ", suffix, bs, 1):
+            continue
+        b = bs[0]
+        arms_seen = {}
+        for n in ir.walk_nodes(b["body"]):
+            if n.get("k") != "match":
+                continue
+            for a in n.get("arms", ()):
+                lits = []
+
+                def coll(x):
+                    if isinstance(x, dict):
+                        if x.get("k") == "lit" and x.get("lk") == "str":
+                            lits.append(x["v"])
+                        for v in x.values():
+                            coll(v)
+                    elif isinstance(x, (list, tuple)):
+                        for v in x:
+                            coll(v)
+                coll(a.get("pat"))
+                names = [v for v in lits if v.startswith(("meta.json", "tiles.json", "metadata.json"))]
+                if not names:
+                    continue
+                ext = {v[v.index(".json") + 5:] for v in names}
+                mg = [y for y in ir.walk_nodes(a["body"]) if y.get("k") == "mcall" and (y.get("q") or "").endswith("TileJSON::merge")]
+                parsed = [y for y in ir.walk_nodes(a["body"]) if y.get("k") == "call" and (y.get("q") or "").endswith("TileJSON::try_from_blob_or_default")]
+                dec = [y for y in ir.walk_nodes(a["body"]) if y.get("k") == "call" and (y.get("q") or "").endswith("compression::decompress")]
+                enc = None
+                if dec:
+                    v = [z.get("q") for z in ir.walk_nodes(dec[0]["a"][1]) if z.get("k") == "path" and "TileCompression::" in (z.get("q") or "")]
+                    enc = v[0].split("TileCompression::")[1].split("::")[0] if v else "?"
+                ok = len(ext) == 1 and len(mg) == 1 and len(parsed) == 1 and ir.contains(mg[0], lambda y: y is parsed[0]) and ENC.get(next(iter(ext)), "?") == enc and \
+                    (not dec or ir.contains(parsed[0], lambda y: y is dec[0]))
+                for e_ in ext:
+                    arms_seen[e_] = arms_seen.get(e_, True) and ok
+        ck.check(set(arms_seen) == set(ENC) and all(arms_seen.values()), "R-META-READ", b["q"] + "|arms",
+                 "each metadata name arm (plain / .gz / .br) merges the parsed member, decoded with the arm's own compression",
+                 "metadata arms %s: a stored TileJSON is dropped or decoded with the wrong compression" % {k_: ("ok" if v else "BROKEN") for k_, v in arms_seen.items()}, ir.loc(b))
+        if "tar::" in suffix:
+            rd = [y for y in ir.walk_nodes(b["body"]) if y.get("k") == "closure" and ir.contains(y["body"], lambda z: z.get("k") == "mcall" and z.get("name") == "read_to_end")]
+            okr = False
+            if len(rd) == 1:
+                call = [z for z in ir.walk_nodes(rd[0]["body"]) if z.get("k") == "mcall" and z.get("name") == "read_to_end"][0]
+                bh = next((z["hid"] for z in ir.walk_nodes(call["a"][0]) if z.get("k") == "path" and z.get("r") == "local"), None)
+                tail = [z for z in ir.walk_nodes(rd[0]["body"]) if z.get("k") == "call" and (z.get("q") or "").endswith(("Blob::from", "From::from")) and z.get("a") and ir.local_hid(z["a"][0]) == bh]
+                okr = bh is not None and bool(tail)
+            ck.check(okr, "R-META-READ", b["q"] + "|read", "the member's bytes are read to the end into the buffer that becomes the blob", "the tar metadata helper does not read the member into the blob it returns", ir.loc(b))
+
+
 def rules(ck, P):
     merge_rule(ck, P)
+    meta_read_rule(ck, P)
     mbtiles_meta_rule(ck, P)
     esc = [b for b in P.bodies if b["q"].endswith("json::stringify::escape_json_string")]
     par = [b for b in P.bodies if b["q"].endswith("byte_iterator::basics::parse_quoted_json_string")]
